@@ -58,6 +58,11 @@ func (cfg *Config) merge(src *Config) error {
 		return err
 	}
 
+	// mergo only fills empty fields: it leaves a non-empty Variables container as it is
+	if cfg.Variables != nil && src.Variables != nil {
+		cfg.Variables = cfg.Variables.Merge(src.Variables)
+	}
+
 	return nil
 }
 
